@@ -329,12 +329,13 @@ static void stub_pump(void)
 		size_t n = 0;
 		bool have = false;
 		if (G.rkind == RK_EXACT) {
+			if (G.rnum > G.bufsize) {
+				G.eh(G.ehctx); /* BS_IO_TOOMUCHDATA -> error_function */
+				return;
+			}
 			if (avail >= G.rnum) {
 				n = G.rnum;
 				have = true;
-			} else if (G.rnum > G.bufsize) {
-				G.eh(G.ehctx); /* BS_IO_TOOMUCHDATA -> error_function */
-				return;
 			}
 		} else {
 			size_t dl = strlen(G.delim);
@@ -347,6 +348,7 @@ static void stub_pump(void)
 				}
 			}
 			if (!have && avail >= G.bufsize) {
+				if (G.http_mode) ev("toolong");
 				G.eh(G.ehctx);
 				return;
 			}
